@@ -1020,6 +1020,7 @@ func TestVerif_C13_e2eh1(t *testing.T) {
 	defer peer.close()
 	flows := []string{"single", "single", "single", "retry", "redirect", "single", "truncated", "single", "retry-after-reset", "redirect", "retry", "garbage"}
 	expectBudget := verifh.N(4, 80)
+	eachReqSeq := 0
 	features := []string{"", "", "", "", "1xx", "long", "long-status", "many", "fold", "barelf", "nearly-long"}
 	n := verifh.N(240, 6000)
 	var pend []*c13Pending
@@ -1071,11 +1072,12 @@ func TestVerif_C13_e2eh1(t *testing.T) {
 			cfg.clone = true
 			cnt.add(s, "via-clone")
 		}
-		if c%11 == 7 && sc.class == "" && !sc.retry && !sc.expect {
+		if c%8 == 3 && sc.class == "" && !sc.retry && !sc.expect && !sc.partial {
 			// request-level dump through Client.EnableDumpEachRequest…, read back with
 			// Response.Dump(); small request bodies only (one flush after all dump calls, so
 			// the flat buffer is in wire order)
-			cfg.eachReq = 1 + r.Intn(7)
+			eachReqSeq++
+			cfg.eachReq = 1 + eachReqSeq%7 // every setter gets its turn
 			cfg.rq = &c13DumperCfg{base: 30, flags: c13EachReq[cfg.eachReq].flags}
 			if len(sc.body) > 1500 {
 				sc.body = sc.body[:1500]
